@@ -164,7 +164,7 @@ def load_findings():
     if os.path.exists(p):
         for l in open(p):
             l = l.strip()
-            if l and not l.startswith("#"):
+            if l.startswith("{"):      # "fixed:" lines and comments suppress nothing
                 out.append(json.loads(l))
     return out
 
@@ -310,6 +310,223 @@ def check_e0(wd):
 
 
 # ------------------------------------------------------------------------------------------
+# the generator family pipeline shared by C01, C02, C03, C04, C10 (and reused by others)
+
+def tree_hash():
+    """hash of everything a cached observation depends on: /repo sources, specs, harness, driver"""
+    h = hashlib.sha256()
+    for base, exts in ((REPO, (".rs", ".toml")), (SPEC, (".tla", ".cfg")), (os.path.join(ROOT, "harness", "src"), (".rs",)),
+                       (os.path.join(ROOT, "driver"), (".py",))):
+        for dp, dn, fn in sorted(os.walk(base)):
+            if "/target" in dp or "/.git" in dp:
+                continue
+            for f in sorted(fn):
+                if f.endswith(exts):
+                    h.update(f.encode())
+                    h.update(open(os.path.join(dp, f), "rb").read())
+    return h.hexdigest()[:16]
+
+
+GEN_FAMILIES = {
+    # family: (cfg, quick sample size, thorough sample size)   (None = all)
+    "G1a_1": ("MC_Gen_G1a_1.cfg", 2500, None),
+    "G1a_2": ("MC_Gen_G1a_2.cfg", 800, None),
+    "G1b": ("MC_Gen_G1b.cfg", 2000, None),
+    "G1c": ("MC_Gen_G1c.cfg", None, None),
+    "G2p_2": ("MC_Gen_G2p_2.cfg", None, None),
+    "G2p_3": ("MC_Gen_G2p_3.cfg", 0, 6000),
+}
+
+
+def gen_pipeline(tier, seed):
+    """MC/GEN over the program families -> harness -> TV_Gen + TV_Dedup. Cached per tree/tier/seed."""
+    key = f"gen-{tree_hash()}-{tier}-{seed}"
+    cdir = os.path.join(WORK, "cache")
+    os.makedirs(cdir, exist_ok=True)
+    cpath = os.path.join(cdir, key + ".json")
+    if os.path.exists(cpath):
+        log(f"[gen] using cached observations {key}")
+        return json.load(open(cpath))
+    wd = workdir("gen")
+    t0 = time.time()
+    n_e0, corpus = check_e0(wd)
+    rnd = random.Random(seed)
+    cases, mc = [], {"generated": 0, "distinct": 0}
+    fam_counts, design = {}, {"c01_false": 0, "c02_false": 0, "c03_false": 0, "teq_unsound": 0}
+    procs = []
+    fams = [f for f, (cfg, q, t) in GEN_FAMILIES.items() if (q if tier == "quick" else t) != 0]
+    # MC_Gen runs: two at a time with 8 workers each
+    for i in range(0, len(fams), 2):
+        batch = fams[i:i + 2]
+        ps = [(f, tlc_start(os.path.join(SPEC, "mc", "MC_Gen.tla"), os.path.join(SPEC, "mc", GEN_FAMILIES[f][0]),
+                            os.path.join(wd, f"mc_{f}.out"), os.path.join(wd, f"md_{f}"), workers=8, xmx="12g")) for f in batch]
+        tlc_wait([p for _, p in ps], 3000)
+    acts = {}
+    for f in fams:
+        text = open(os.path.join(wd, f"mc_{f}.out")).read()
+        s = tlc_summary(text)
+        mc["generated"] += s["generated"]
+        mc["distinct"] += s["distinct"]
+        fc = tlc_lines(text, "CASE ")
+        fam_counts[f] = len(fc)
+        for c in fc:
+            design["c01_false"] += (not c["model"]["c01"]) and c["cf"]
+            design["c02_false"] += not c["model"]["c02"]
+            design["c03_false"] += not c["model"]["c03"]
+            design["teq_unsound"] += not c["model"]["teq_sound"]
+        lim = GEN_FAMILIES[f][1] if tier == "quick" else GEN_FAMILIES[f][2]
+        if lim is not None and len(fc) > lim:
+            rnd.shuffle(fc)
+            fc = fc[:lim]
+        for c in fc:
+            c["fam"] = f
+        cases += fc
+        shutil.rmtree(os.path.join(wd, f"md_{f}"), ignore_errors=True)
+    # the compiled corpus (real scale-info output) as extra cases; cf unknown -> judged for C02/C03/C10 only
+    base = None
+    for c in cases:
+        if c["fam"] == "G1c":
+            base = c["settings"]
+            break
+    for e in corpus:
+        if e["name"] == "ALL":
+            continue
+        cases.append({"fam": "corpus", "cf": False, "tog": False, "reg": e["reg"], "settings": base, "roots": [e["root"]],
+                      "model": {"res": "", "c01": True, "c02": True, "c03": True, "teq_sound": True}, "name": e["name"]})
+    recs = []
+    for i, c in enumerate(cases):
+        recs.append({"case": i, "fam": c["fam"], "cf": c["cf"], "tog": c["tog"], "model": c["model"],
+                     "runs": [{"reg": c["reg"], "settings": c["settings"], "dedup": True, "composites": False, "teq": [], "repeat": 0}]})
+    write_ndjson(os.path.join(wd, "cases.ndjson"), recs)
+    harness_run("gen", os.path.join(wd, "cases.ndjson"), os.path.join(wd, "obs.ndjson"), jobs=12)
+    obs = read_ndjson(os.path.join(wd, "obs.ndjson"))
+    crashed = [o for o in obs if o.get("crash")]
+    if crashed:
+        raise ToolError(f"harness worker crashed/timed out on gen case {crashed[0]['case']} ({crashed[0]['crash']})")
+    bad_setup = [o for o in obs if o["runs"][0].get("setup") != "ok"]
+    if bad_setup:
+        raise ToolError(f"harness could not set up case {bad_setup[0]['case']}: {bad_setup[0]['runs'][0].get('setup')}")
+    v1, s1 = tv_parallel(os.path.join(SPEC, "tv", "TV_Gen.tla"), os.path.join(SPEC, "tv", "TV_Gen.cfg"),
+                         os.path.join(wd, "obs.ndjson"), wd, nproc=8, workers=2)
+    v2, s2 = tv_parallel(os.path.join(SPEC, "tv", "TV_Dedup.tla"), os.path.join(SPEC, "tv", "TV_Dedup.cfg"),
+                         os.path.join(wd, "obs.ndjson"), wd, nproc=8, workers=2)
+    if len(v1) != len(recs) or len(v2) != len(recs):
+        raise ToolError(f"TV judged {len(v1)}/{len(v2)} of {len(recs)} cases")
+    by1 = {v["case"]: v for v in v1}
+    by2 = {v["case"]: v for v in v2}
+    verdicts = []
+    for r in recs:
+        a, b = by1[r["case"]], by2[r["case"]]
+        verdicts.append({"case": r["case"], "fam": r["fam"], "cf": r["cf"],
+                         "failed": sorted(set(a["failed"]) | set(b["failed"])),
+                         "known": [list(k) for k in a["known"]] + [list(k) for k in b["known"]],
+                         "drift": a["drift"] or b["drift"], "gen": a["gen"], "dedup": b["dedup"], "gen2": b["gen2"],
+                         "renamed": b["renamed"], "family": a["family"], "outs": a["outs"]})
+    # per-action counts: the visit events of the real code that were stepped through the Visit action (-coverage is
+    # unusable on this specification: TLC's cost accounting on the recursive operators exhausts the heap)
+    for v in verdicts:
+        for o in v["outs"]:
+            acts["Visit:" + o] = acts.get("Visit:" + o, 0) + 1
+    for o in ("substituted", "prelude", "builtin", "insert", "keep", "duplicate"):
+        acts.setdefault("Visit:" + o, 0)
+    out = {"verdicts": verdicts, "mc": mc, "tv": {"generated": s1["generated"] + s2["generated"], "distinct": s1["distinct"] + s2["distinct"]},
+           "fam_counts": fam_counts, "design": design, "mc_actions": acts, "e0": n_e0, "wall": time.time() - t0,
+           "cases_path": os.path.join(wd, "cases.ndjson")}
+    # keep the cases next to the cache for replay files
+    shutil.copy(os.path.join(wd, "cases.ndjson"), os.path.join(cdir, key + ".cases.ndjson"))
+    out["cases_path"] = os.path.join(cdir, key + ".cases.ndjson")
+    json.dump(out, open(cpath, "w"))
+    return out
+
+
+def account(res, prop, verdicts, cases_by_id, prefixes, findings):
+    """Split the failed predicates of `prop` into known findings and violations."""
+    sites = {f["site"]: f for f in findings if f["property"] == prop}
+    for v in verdicts:
+        mine = [p for p in v["failed"] if any(p.startswith(x) for x in prefixes)]
+        if not mine:
+            continue
+        explained = {}
+        for p in mine:
+            for kp, site in v["known"]:
+                # a site listed under this property explains the predicate (predicate names are shared across properties
+                # for the same observation, e.g. C03.Faithful / C01.Faithful)
+                if kp.split(".", 1)[1] == p.split(".", 1)[1] and site in sites:
+                    explained[p] = site
+        rest = [p for p in mine if p not in explained]
+        if rest:
+            res.violations.append((f"{prop} predicates failed: {rest} (family {v['fam']})", cases_by_id(v["case"])))
+        else:
+            for site in set(explained.values()):
+                n, what = res.known.get(site, (0, sites[site]["what"]))
+                res.known[site] = (n + 1, what)
+
+
+def check_genprop(prop, prefixes, nontrivial, rule, tier, seed, domain=lambda v: True):
+    res = Result(prop, tier, seed)
+    g = gen_pipeline(tier, seed)
+    res.add_mc(g["mc"])
+    res.add_mc(g["tv"])
+    verdicts = [v for v in g["verdicts"] if domain(v)]
+    cases = None
+
+    def case_of(cid):
+        nonlocal cases
+        if cases is None:
+            cases = {c["case"]: c for c in read_ndjson(g["cases_path"])}
+        return cases[cid]
+    account(res, prop, verdicts, case_of, prefixes, load_findings())
+    res.traces = len(verdicts)
+    res.evaluations = len(verdicts)
+    res.nontrivial = sum(1 for v in verdicts if nontrivial(v))
+    res.drift = sum(1 for v in verdicts if v["drift"])
+    res.extra.update({"families": g["fam_counts"], "design_level": g["design"], "mc_actions": g["mc_actions"], "e0_programs": g["e0"]})
+    never = [a for a, n in g["mc_actions"].items() if n == 0]
+    if never:
+        res.extra["vacuity_warning"] = f"actions never taken in MC: {never}"
+    res.rule = rule
+    some = [case_of(v["case"]) for v in verdicts[:: max(1, len(verdicts) // 3)][:3]]
+    res.samples = [{"family": c["fam"], "registry": c["runs"][0]["reg"][:3], "settings_root": c["runs"][0]["settings"]["root"]} for c in some]
+    res.assumptions = ["TLC and CommunityModules", "syn's parser for the projection of generated tokens", "serde_json",
+                       "the environment model ScaleInfo.tla (conformance-checked against the real derive: E0)"]
+    if res.drift:
+        print(f"DRIFT property={prop} cases={res.drift} (implementation deviates from the concrete model; MC results transfer only to replayed cases)")
+    return res.finish()
+
+
+GEN_RULE = ("MC: every program of the families G1a (one definition, every type constructor up to depth 2 in struct/variant named/unnamed "
+            "position, compact attribute), G1b (generic definition x field expressions x 2 instantiations, with and without id coincidences), "
+            "G1c (recursion/nested modules/docs), G2p (same-path families: instantiation / associated-type / version, every order) is registered by "
+            "ScaleInfo.tla and run through the Visit actions of Typegen.tla with the predicates evaluated on the model output; TV: a seeded sample "
+            "(quick) or all (thorough) of these cases plus the compiled corpus are generated by the real crate, its visit/group/rename hook events are "
+            "stepped through the same actions and the predicates are evaluated by TLC on the projected real output; ")
+
+
+def check_c01(tier, seed):
+    return check_genprop("C01", ["C01."], lambda v: v["gen"] == "ok" and v["cf"],
+                         GEN_RULE + "non-trivial = coincidence-free case whose generation succeeded (every id judged for wire-faithfulness); distinct by case input",
+                         tier, seed)
+
+
+def check_c02(tier, seed):
+    return check_genprop("C02", ["C02."], lambda v: v["gen"] == "ok" or v["gen2"] == "ok",
+                         GEN_RULE + "non-trivial = generation succeeded on the registry or on the de-duplicated registry (module judged by WellFormedRust)",
+                         tier, seed)
+
+
+def check_c03(tier, seed):
+    return check_genprop("C03", ["C03."], lambda v: v["family"] and ("keep" in v["outs"] or "duplicate" in v["outs"]),
+                         GEN_RULE + "domain = registries containing a same-path family; non-trivial = the occupied-path branch (keep or duplicate) was reached",
+                         tier, seed, domain=lambda v: v["family"])
+
+
+def check_c04(tier, seed):
+    return check_genprop("C04", ["C04."], lambda v: v["renamed"] > 0,
+                         GEN_RULE + "every case also runs ensure_unique_type_paths twice and generation on the result; non-trivial = at least one path renamed",
+                         tier, seed)
+
+
+# ------------------------------------------------------------------------------------------
 # C15 formatter
 
 def balanced_strings_from_sim(wd, seed, num, res):
@@ -384,7 +601,7 @@ def check_e0_cmd(tier, seed):
     return 0
 
 
-CHECKS = {"C15": check_c15, "E0": check_e0_cmd}
+CHECKS = {"C15": check_c15, "E0": check_e0_cmd, "C01": check_c01, "C02": check_c02, "C03": check_c03, "C04": check_c04}
 
 
 def selfcheck():
